@@ -1185,6 +1185,48 @@ def stream_expectation(ctx, ad, count):
 
 
 # ---------------------------------------------------------------- driver
+def stream_measure_observables(ctx, cirq, count):
+    """Expectation values estimated by sampling (cirq.work.measure_observables, with and without readout symmetrization)
+    against <psi|P|psi>.  Fixed sampler seeds make the run deterministic; the acceptance band is 6 standard errors, so an
+    unbiased estimator stays inside it and a sign/rotation slip (which moves the mean by O(1)) does not."""
+    import numpy as np
+    rng = ctx.rng
+    reps = 2500
+    for i in range(count):
+        n = rng.randint(1, 2)
+        qs = cirq.LineQubit.range(n)
+        prep = cirq.Circuit()
+        for q in qs:
+            prep.append(rng.choice([cirq.H(q), cirq.X(q) ** 0.5, cirq.X(q) ** -0.5, cirq.Y(q) ** 0.5, cirq.X(q), cirq.I(q), cirq.ry(0.9)(q), cirq.rx(0.7)(q)]))
+        if n == 2 and rng.random() < 0.5:
+            prep.append(cirq.CNOT(qs[0], qs[1]))
+        letters = [rng.choice([cirq.X, cirq.Y, cirq.Z]) for _ in qs]
+        if n == 2 and rng.random() < 0.3:
+            obs = cirq.PauliString({qs[0]: letters[0]}) * rng.choice([1.0, 0.5, -1.0])
+        else:
+            obs = cirq.PauliString({q: l for q, l in zip(qs, letters)}) * rng.choice([1.0, 0.5, -1.0])
+        sym = rng.random() < 0.6
+        psi = cirq.final_state_vector(prep, qubit_order=qs)
+        exact = float(np.real(obs.expectation_from_state_vector(psi, {q: k for k, q in enumerate(qs)})))
+        try:
+            res = cirq.work.observable_measurement.measure_observables(prep, [obs], cirq.Simulator(seed=1000 + i),
+                                                stopping_criteria=cirq.work.RepetitionsStoppingCriteria(reps),
+                                                readout_symmetrization=sym)
+            got = float(res[0].mean)
+        except Exception as e:
+            ctx.violation('measure_observables:raises', f'measure_observables raised {type(e).__name__}: {e}',
+                          dict(kind='measure_observables', circuit=repr(prep), observable=repr(obs), symmetrization=sym))
+            continue
+        band = 6 * abs(complex(obs.coefficient)) / np.sqrt(reps) + 1e-9
+        ctx.count('measure_observables', [repr(prep), repr(obs), sym], abs(exact) > 0.05,
+                  sample=dict(circuit=str(prep).replace('\n', ' | '), observable=str(obs), readout_symmetrization=sym, exact=exact, sampled=got))
+        if abs(got - exact) > band:
+            ctx.violation(f'measure_observables:sym={sym}:{"".join(str(l) for l in letters)}',
+                          f'measure_observables(readout_symmetrization={sym}) estimates <{obs}> = {got:.3f} but <psi|P|psi> = {exact:.3f} '
+                          f'({reps} repetitions, 6 sigma band {band:.3f}) on {str(prep)!r}',
+                          dict(kind='measure_observables', circuit=repr(prep), observable=repr(obs), symmetrization=sym, exact=exact, sampled=got))
+
+
 def run(ctx):
     """Run all streams; a broken obligation / correspondence / harness failure for which no failing input was found is
     reported as such even when known findings were hit (runner.finish() only does so when there are none)."""
@@ -1241,6 +1283,7 @@ def _run(ctx):
     timed('conjugation', stream_conjugation, ctx, ad, 300 if quick else 4000, not quick)
     timed('rotations', stream_rotations, ctx, ad, 200 if quick else 2500)
     timed('expectation', stream_expectation, ctx, ad, 200 if quick else 2500)
+    timed('sampled observables', stream_measure_observables, ctx, cirq, 10 if quick else 60)
 
 
 def replay(ctx, data):
